@@ -53,3 +53,11 @@ package p
 //@   ensures r >= 0
 //@   loop 1
 //@     invariant s >= 0
+
+// ---- frame scan
+//@ func SetB(t *Two)
+//@   modifies t.A
+//@ func SetPA(t *Two)
+//@   modifies *t
+//@ func SetViaCallee(t *Two)
+//@   modifies t.B
